@@ -9,17 +9,21 @@
    Theorems: the invariant is preserved by translate and across horizons, and at every stable point every cached literal has the LTLf
    value of its formula in every assignment that violates no emitted constraint (value_full / incremental_full). *)
 From Coq Require Import List Bool Arith ZArith Lia.
-Require Import GenPrelude TheoryPrelude FromTheory TEL TheorySem.
+Require Import GenPrelude TheoryPrelude FromTheory DynPrelude FromDynamic TEL LDL LDLext TheorySem.
 Import ListNotations.
 Section BTF.
 Variable A : Type.
 Hypothesis A_eq_dec : forall a b : A, {a = b} + {a <> b}.
+Notation path := (LDL.path A).
 Inductive bf := At (a : A) | Cst (b : bool) | Neg (x : bf) | Bin (op : boolop) (x y : bf) | Pv (n : nat) (w : bool) (x : bf) | Ini (x : bf)
-              | Nx (n : nat) (w : bool) (x : bf) | TN2 (u : bool) (l r : bf) | TN1 (u : bool) (r : bf) | TP2 (u : bool) (l r : bf) | TP1 (u : bool) (r : bf).
+              | Nx (n : nat) (w : bool) (x : bf) | TN2 (u : bool) (l r : bf) | TN1 (u : bool) (r : bf) | TP2 (u : bool) (l r : bf) | TP1 (u : bool) (r : bf)
+              | Dia (p : path) (g : bf) | Box (p : path) (g : bf).                    (* &del: DiamondFormula / BoxFormula over path expressions *)
 Lemma boolop_eq_dec : forall a b : boolop, {a = b} + {a <> b}.  Proof. decide equality. Defined.
+Lemma tst_eq_dec : forall a b : LDL.tst A, {a = b} + {a <> b}.  Proof. decide equality; apply Bool.bool_dec. Defined.
+Lemma path_eq_dec : forall a b : path, {a = b} + {a <> b}.  Proof. decide equality; apply tst_eq_dec. Defined.
 Lemma bf_eq_dec : forall f g : bf, {f = g} + {f <> g}.
-Proof. decide equality; try apply Bool.bool_dec; try apply Nat.eq_dec; apply boolop_eq_dec. Defined.
-Opaque bf_eq_dec boolop_eq_dec.       (* transparent for extraction only *)
+Proof. decide equality; try apply Bool.bool_dec; try apply Nat.eq_dec; try apply path_eq_dec; apply boolop_eq_dec. Defined.
+Opaque bf_eq_dec boolop_eq_dec tst_eq_dec path_eq_dec.       (* transparent for extraction only *)
 Definition trace := nat -> A -> bool.
 (* ---------------- LTLf semantics at horizon h ---------------- *)
 Fixpoint lsat (h : nat) (T : trace) (p : bf) : nat -> bool :=
@@ -35,6 +39,48 @@ Fixpoint lsat (h : nat) (T : trace) (p : bf) : nat -> bool :=
   | TN1 u r => fun k => fut u (fun _ => u) (lsat h T r) (h - k) k
   | TP2 u l r => fun k => pst u (lsat h T l) (lsat h T r) k
   | TP1 u r => fun k => pst u (fun _ => u) (lsat h T r) k
+  | Dia p g => fun k => LDL.ds A h T p (lsat h T g) k
+  | Box p g => fun k => negb (LDL.ds A h T p (fun j => negb (lsat h T g j)) k)
+  end.
+(* ---------------- &del: what DiamondFormula / BoxFormula.translate_<PathClass> build (tables REGENERATED: Gen/FromDynamic.v) ---------------- *)
+Definition tbf (t : LDL.tst A) : bf := match t with TAtom _ a => At a | TConst _ b => Cst b end.
+Definition pshape_of (p : path) : pshape :=
+  match p with Skip _ => ShSkip | Test _ _ => ShCheck | Choice _ _ _ => ShChoice | Seq _ _ _ => ShSeq | Star _ _ => ShStar end.
+Definition psel_of (p : path) (sl : psel) : option path :=
+  match sl, p with
+  | PSelLhs, Choice _ l _ | PSelLhs, Seq _ l _ => Some l
+  | PSelRhs, Choice _ _ r | PSelRhs, Seq _ _ r => Some r
+  | PSelArg, Star _ q => Some q
+  | PSkipC, _ => Some (Skip _)
+  | _, _ => None
+  end.
+Fixpoint cinst (self : bf) (p : path) (rhs : bf) (e : cexp) : option bf :=
+  match e with
+  | CSelf => Some self
+  | CRhs => Some rhs
+  | CTest => match p with Test _ t => Some (tbf t) | _ => None end
+  | CDia sl f => match psel_of p sl, cinst self p rhs f with Some q, Some g => Some (Dia q g) | _, _ => None end
+  | CBox sl f => match psel_of p sl, cinst self p rhs f with Some q, Some g => Some (Box q g) | _, _ => None end
+  | CBool op a b => match cinst self p rhs a, cinst self p rhs b with Some x, Some y => Some (Bin op x y) | _, _ => None end
+  | CNeg a => option_map Neg (cinst self p rhs a)
+  | CNext a n w => option_map (Nx n w) (cinst self p rhs a)
+  | CConst b => Some (Cst b)
+  end.
+Definition reduce (f : bf) : option bf :=
+  match f with
+  | Dia p g => cinst f p g (dia_reduce_gen (pshape_of p))
+  | Box p g => cinst f p g (box_reduce_gen (pshape_of p))
+  | _ => None
+  end.
+(* the documented normal form: iteration only over paths that consume a step (LDLext.wfp) *)
+Notation consuming := (LDLext.consuming A).
+Notation wfp := (LDLext.wfp A).
+Fixpoint wfb (f : bf) : bool :=
+  match f with
+  | At _ | Cst _ => true
+  | Neg x | Pv _ _ x | Ini x | Nx _ _ x | TN1 _ x | TP1 _ x => wfb x
+  | Bin _ x y | TN2 _ x y | TP2 _ x y => wfb x && wfb y
+  | Dia p g | Box p g => wfp p && wfb g
   end.
 (* ---------------- the formula classes: dependencies, one-step meaning ---------------- *)
 Definition fut_of (f : bf) (u : bool) : bf := Nx 1 (negb u) f.          (* set_future(Next(self, 1, not until)) *)
@@ -50,6 +96,7 @@ Definition deps (f : bf) (k : nat) : list (bf * nat) :=
   | TN1 u r => [(fut_of f u, k); (r, k)]
   | TP2 _ l r => match k with 0 => [(r, 0)] | S k' => [(f, k'); (l, k); (r, k)] end
   | TP1 _ r => match k with 0 => [(r, 0)] | S k' => [(f, k'); (r, k)] end
+  | Dia _ _ | Box _ _ => match reduce f with Some r => [(r, k)] | None => [] end
   end.
 Definition outside (h : nat) (f : bf) (k : nat) : bool := match f with Nx n _ _ => negb (k + n <=? h) | _ => false end.
 Definition nop (u : bool) : telop := if u then OpUntil else OpRelease.
@@ -67,6 +114,8 @@ Definition sem (T : trace) (f : bf) (k : nat) (vs : list bool) : bool :=
   | TN1 u _, [p; r] => tel_spec (nop u) false false r p
   | TP2 u _ _, vs => match k, vs with 0, [r] => r | S _, [p; l; r] => tel_spec (pop u) true l r p | _, _ => false end
   | TP1 u _, vs => match k, vs with 0, [r] => r | S _, [p; r] => tel_spec (pop u) false false r p | _, _ => false end
+  | Dia _ _, [x] => x
+  | Box _ _, [x] => x
   | _, _ => false
   end.
 (* ---------------- executable model of the translation ---------------- *)
@@ -114,6 +163,8 @@ Definition combine (f : bf) (k : nat) (ls : list lit) : option comb :=
                    | 0, [lr] => Some (CAlias lr)
                    | S _, [lp; lr] => Some (CDefine (fun l => inst (lmap l lfalse lr lp) (tel_clauses_gen (pop u) false)))
                    | _, _ => None end
+  | Dia _ _, [lx] => Some (CDefine (fun l => inst (lmap lx lfalse l lfalse) make_equal_cl_gen))      (* data.add_literal, then add_atom(literal of what was built): make_equal(built, own) *)
+  | Box _ _, [lx] => Some (CDefine (fun l => inst (lmap lx lfalse l lfalse) make_equal_cl_gen))
   | _, _ => None
   end.
 (* after the recursive calls the entry must still be unset: StepData.add_literal asserts this (an Internal outcome = None here) *)
@@ -170,6 +221,8 @@ Definition entry_ok (h : nat) (todo : list (nat * bf)) (s : st) (f : bf) (k : na
    \/ (d = false /\ exists n w x e, f = Nx n w x /\ l = (true, VX e) /\
         (if k + n <=? h then In (k, f) todo else In (k, f) todo \/ In (k, f) (pending s)))).
 Definition Inv h todo s := forall f k l d, lookup s f k = Some (l, d) -> entry_ok h todo s f k l d.
+(* every formula in the cache or on the pending list is in the documented normal form (iteration only over step-consuming paths) *)
+Definition Wf (s : st) : Prop := (forall f k l d, lookup s f k = Some (l, d) -> wfb f = true) /\ (forall p, In p (pending s) -> wfb (snd p) = true).
 
 (* ---------------- clause tables mean what they should ----------------
    The three leaf lemmas about the REGENERATED tables are hypotheses of this section (discharged in Props/C03.v with the lemmas of
@@ -178,6 +231,52 @@ Definition Inv h todo s := forall f k l d, lookup s f k = Some (l, d) -> entry_o
 Hypothesis boolean_clauses_spec : forall op v, holds v (boolean_clauses_gen op) = Bool.eqb (v Llit) (bool_spec op (v Llhs) (v Lrhs)).
 Hypothesis tel_clauses_spec : forall op has v, holds v (tel_clauses_gen op has) = Bool.eqb (v Llit) (tel_spec op has (v Llhs) (v Lrhs) (v Lpre)).
 Hypothesis make_equal_spec : forall v, holds v make_equal_cl_gen = Bool.eqb (v La) (v Lb).
+(* ... and what the regenerated construction tables of the dynamic layer build, path class by path class (discharged by computation in Props/C05.v) *)
+Definition finf : bf := Neg (Nx 1 false (Cst true)).              (* ~ > &true: true exactly in the last state *)
+Definition dia_built (p : path) (g : bf) : bf :=
+  match p with
+  | Skip _ => Nx 1 false g
+  | Test _ t => Bin OpAnd (tbf t) g
+  | Choice _ p1 p2 => Bin OpOr (Dia p2 g) (Dia p1 g)
+  | Seq _ p1 p2 => Dia p1 (Dia p2 g)
+  | Star _ q => Bin OpAnd (Bin OpRImp finf g) (Bin OpOr g (Dia q (Dia p g)))
+  end.
+Definition box_built (p : path) (g : bf) : bf :=
+  match p with
+  | Skip _ => Nx 1 true g
+  | Test _ t => Bin OpRImp (tbf t) g
+  | Choice _ p1 p2 => Bin OpAnd (Box p2 g) (Box p1 g)
+  | Seq _ p1 p2 => Box p1 (Box p2 g)
+  | Star _ q => Bin OpAnd (Bin OpRImp finf g) (Bin OpAnd g (Box q (Box p g)))
+  end.
+Hypothesis reduce_eqs : forall p g, reduce (Dia p g) = Some (dia_built p g) /\ reduce (Box p g) = Some (box_built p g).
+(* every construction is LDLf-equivalent to the modality it stands for *)
+Lemma tbf_val h T t k : lsat h T (tbf t) k = tval A T t k.
+Proof. destruct t; reflexivity. Qed.
+Lemma finf_val h T k : lsat h T finf k = LDLext.fin h k.
+Proof. unfold finf, LDLext.fin. cbn [lsat]. now destruct (k + 1 <=? h). Qed.
+Lemma skip_guard h k : (k + 1 <=? h) = (k <? h).
+Proof. destruct (Nat.leb_spec (k + 1) h), (Nat.ltb_spec k h); try reflexivity; lia. Qed.
+Lemma built_valid h T p g k : k <= h -> lsat h T (dia_built p g) k = lsat h T (Dia p g) k /\ lsat h T (box_built p g) k = lsat h T (Box p g) k.
+Proof.
+  intros Hk. destruct p as [|t|l r|l r|q]; cbn [dia_built box_built lsat bool_spec]; split.
+  - cbn [LDL.ds]. rewrite skip_guard. replace (k + 1) with (S k) by lia. now destruct (k <? h).
+  - cbn [LDL.ds]. rewrite skip_guard. replace (k + 1) with (S k) by lia. destruct (k <? h); cbn; [now rewrite negb_involutive|reflexivity].
+  - cbn [LDL.ds]. now rewrite tbf_val.
+  - cbn [LDL.ds]. rewrite tbf_val. now destruct (tval A T t k), (lsat h T g k).
+  - cbn [LDL.ds]. apply orb_comm.
+  - cbn [LDL.ds]. rewrite negb_orb. apply andb_comm.
+  - reflexivity.
+  - cbn [LDL.ds]. f_equal. apply (LDLext.ds_ext_h A h T); [exact Hk|]. intros j _. now rewrite negb_involutive.
+  - rewrite finf_val. cbn [lsat]. rewrite (LDLext.star_dia_eq A h T q (lsat h T g) k Hk). unfold LDLext.fin. now destruct (k + 1 <=? h), (lsat h T g k).
+  - rewrite finf_val. cbn [lsat]. rewrite (LDLext.star_box_eq A h T q (lsat h T g) k Hk). unfold LDLext.fin. now destruct (k + 1 <=? h), (lsat h T g k).
+Qed.
+Lemma reduce_valid h T f r k : reduce f = Some r -> k <= h -> lsat h T r k = lsat h T f k.
+Proof.
+  intros R Hk. destruct f; try discriminate.
+  - destruct (reduce_eqs p f) as [E _]. rewrite E in R. injection R as <-. apply (built_valid h T p f k Hk).
+  - destruct (reduce_eqs p f) as [_ E]. rewrite E in R. injection R as <-. apply (built_valid h T p f k Hk).
+Qed.
 Lemma ev_nlit T v l : ev T v (nlit l) = negb (ev T v l).
 Proof. destruct l as [[|] x]; unfold ev, nlit; cbn; [reflexivity|now rewrite negb_involutive]. Qed.
 Lemma ev_lconst T v b : v 0 = false -> ev T v (lconst b) = b.
@@ -210,7 +309,7 @@ Lemma combine_sem T v f k ls c : v 0 = false -> combine f k ls = Some c ->
   | CDefine cs => forall l, (forall b, In b (cs l) -> forallb (ev T v) b = false) -> ev T v l = sem T f k (map (ev T v) ls)
   end.
 Proof.
-  intros V C. destruct f as [a|b|x|op x y|n w x|x|n w x|u l r|u r|u l r|u r]; cbn [combine] in C.
+  intros V C. destruct f as [a|b|x|op x y|n w x|x|n w x|u l r|u r|u l r|u r|p g|p g]; cbn [combine] in C.
   - destruct ls; [|discriminate]. inversion C; subst. reflexivity.
   - destruct ls; [|discriminate]. inversion C; subst. cbn [sem]. now apply ev_lconst.
   - destruct ls as [|lx [|? ?]]; try discriminate. inversion C; subst. cbn [sem map]. apply ev_nlit.
@@ -228,6 +327,8 @@ Proof.
   - destruct k as [|k'].
     + destruct ls as [|lr [|? ?]]; try discriminate. inversion C; subst. reflexivity.
     + destruct ls as [|lp [|lr [|? ?]]]; try discriminate. inversion C; subst. intros l0 O. cbn [sem map]. rewrite <- (tel_spec_nolhs _ (ev T v lfalse)). now apply tel_group_spec.
+  - destruct ls as [|lx [|? ?]]; try discriminate. inversion C; subst. intros l0 O. cbn [sem map]. symmetry. now apply eq_group_spec.
+  - destruct ls as [|lx [|? ?]]; try discriminate. inversion C; subst. intros l0 O. cbn [sem map]. symmetry. now apply eq_group_spec.
 Qed.
 (* ---------------- infrastructure ---------------- *)
 Lemma keyb_true f k p : keyb f k p = true <-> fst p = (f, k).
@@ -312,7 +413,7 @@ Lemma Inv_ext_same h todo s s' : Inv h todo s -> ext s s' -> (forall f k, lookup
 Proof. intros I X Same f k l d L. rewrite Same in L. apply (entry_ok_ext h todo s s' f k l d X). now apply I. Qed.
 Lemma deps_bound h f k : k <= h -> outside h f k = false -> forall d, In d (deps f k) -> snd d <= h.
 Proof.
-  intros Hk Ho d Hd. destruct f as [a|b|x|op x y|n w x|x|n w x|u l r|u r|u l r|u r]; cbn [deps] in Hd.
+  intros Hk Ho d Hd. destruct f as [a|b|x|op x y|n w x|x|n w x|u l r|u r|u l r|u r|p g|p g]; cbn [deps] in Hd.
   - destruct Hd.
   - destruct Hd.
   - destruct Hd as [<-|[]]. exact Hk.
@@ -324,6 +425,8 @@ Proof.
   - destruct Hd as [<-|[<-|[]]]; exact Hk.
   - destruct k as [|k']; [destruct Hd as [<-|[]]; exact Hk|destruct Hd as [<-|[<-|[<-|[]]]]; cbn; lia].
   - destruct k as [|k']; [destruct Hd as [<-|[]]; exact Hk|destruct Hd as [<-|[<-|[]]]; cbn; lia].
+  - destruct (reduce (Dia p g)); [destruct Hd as [<-|[]]; exact Hk|destruct Hd].
+  - destruct (reduce (Box p g)); [destruct Hd as [<-|[]]; exact Hk|destruct Hd].
 Qed.
 
 (* ---------------- preservation of the invariant by translate ---------------- *)
@@ -433,9 +536,118 @@ Hypothesis EC : forall f k l, cached s f k l -> k <= h /\
   (val f k = lsat h T f k
    \/ (outside h f k = false /\ (forall d, In d (deps f k) -> exists l', cached s (fst d) (snd d) l') /\ val f k = sem T f k (map dval (deps f k)))
    \/ (exists n w x, f = Nx n w x /\ (k + n <=? h) = false /\ val f k = w)).
-Theorem value_gen : forall f k l, cached s f k l -> val f k = lsat h T f k.
+(* ---- &del: one-step facts read off EC, then the value of both modalities by induction on the path (iteration bodies consume a step) ---- *)
+Definition GG (g : bf) (k0 : nat) : Prop := forall k l, k0 <= k -> cached s g k l -> val g k = lsat h T g k.
+Lemma GG_mono g k0 k1 : k0 <= k1 -> GG g k0 -> GG g k1.
+Proof. intros L G k l Hk C. apply (G k l); [lia|exact C]. Qed.
+Definition Md (m : bool) (p : path) (g : bf) : bf := if m then Dia p g else Box p g.
+Definition built (m : bool) (p : path) (g : bf) : bf := if m then dia_built p g else box_built p g.
+Lemma built_shape m p g : built m p g =
+  match p with
+  | Skip _ => Nx 1 (negb m) g
+  | Test _ t => Bin (if m then OpAnd else OpRImp) (tbf t) g
+  | Choice _ p1 p2 => Bin (if m then OpOr else OpAnd) (Md m p2 g) (Md m p1 g)
+  | Seq _ p1 p2 => Md m p1 (Md m p2 g)
+  | Star _ q => Bin OpAnd (Bin OpRImp finf g) (Bin (if m then OpOr else OpAnd) g (Md m q (Md m p g)))
+  end.
+Proof. destruct m, p; reflexivity. Qed.
+Lemma ec_md m p g k l : cached s (Md m p g) k l -> k <= h /\ (val (Md m p g) k = lsat h T (Md m p g) k \/ exists lr, cached s (built m p g) k lr /\ val (Md m p g) k = val (built m p g) k).
 Proof.
-  induction f as [a|b|x IH|op x IHx y IHy|n w x IH|x IH|n w x IH|u l IHl r IHr|u r IHr|u l IHl r IHr|u r IHr]; intros k l0 C;
+  intros C. destruct (EC _ k l C) as [Hk [E0|[[_ [Dc E]]|[n' [w' [x' [Ef _]]]]]]]; split; try exact Hk; [now left| |destruct m; discriminate].
+  right. assert (reduce (Md m p g) = Some (built m p g)) as R by (destruct (reduce_eqs p g) as [E1 E2]; destruct m; assumption).
+  assert (deps (Md m p g) k = [(built m p g, k)]) as D by (destruct m; cbn [Md deps] in *; now rewrite R).
+  rewrite D in Dc, E. destruct (Dc _ (or_introl eq_refl)) as [lr Cr]. exists lr. split; [exact Cr|]. rewrite E. destruct m; reflexivity.
+Qed.
+Lemma ec_bin op x y k l : cached s (Bin op x y) k l ->
+  val (Bin op x y) k = lsat h T (Bin op x y) k \/ exists lx ly, cached s x k lx /\ cached s y k ly /\ val (Bin op x y) k = bool_spec op (val x k) (val y k).
+Proof.
+  intros C. destruct (EC _ k l C) as [Hk [E0|[[_ [Dc E]]|[n' [w' [x' [Ef _]]]]]]]; [now left| |discriminate]. right. cbn [deps] in Dc, E.
+  destruct (Dc _ (or_introl eq_refl)) as [lx Cx]. destruct (Dc _ (or_intror (or_introl eq_refl))) as [ly Cy]. exists lx, ly. split; [exact Cx|]. split; [exact Cy|exact E].
+Qed.
+Lemma ec_neg x k l : cached s (Neg x) k l -> val (Neg x) k = lsat h T (Neg x) k \/ exists lx, cached s x k lx /\ val (Neg x) k = negb (val x k).
+Proof.
+  intros C. destruct (EC _ k l C) as [Hk [E0|[[_ [Dc E]]|[n' [w' [x' [Ef _]]]]]]]; [now left| |discriminate]. right. cbn [deps] in Dc, E.
+  destruct (Dc _ (or_introl eq_refl)) as [lx Cx]. exists lx. split; [exact Cx|exact E].
+Qed.
+Lemma ec_nx n w x k l : cached s (Nx n w x) k l ->
+  val (Nx n w x) k = lsat h T (Nx n w x) k \/ ((k + n <=? h) = true /\ exists lx, cached s x (k + n) lx /\ val (Nx n w x) k = val x (k + n)) \/ ((k + n <=? h) = false /\ val (Nx n w x) k = w).
+Proof.
+  intros C. destruct (EC _ k l C) as [Hk [E0|[[Ho [Dc E]]|[n' [w' [x' [Ef [R E]]]]]]]]; [now left| |].
+  - right. left. cbn [outside] in Ho. apply negb_false_iff in Ho. split; [exact Ho|]. cbn [deps] in Dc, E. destruct (Dc _ (or_introl eq_refl)) as [lx Cx]. exists lx. split; [exact Cx|exact E].
+  - right. right. injection Ef as <- <- <-. split; [exact R|exact E].
+Qed.
+Lemma ec_leaf f k l : (exists a, f = At a) \/ (exists b, f = Cst b) -> cached s f k l -> val f k = lsat h T f k.
+Proof.
+  intros Sh C. destruct (EC _ k l C) as [Hk [E0|[[_ [_ E]]|[n' [w' [x' [Ef _]]]]]]]; [exact E0| |destruct Sh as [[a ->]|[b ->]]; discriminate].
+  destruct Sh as [[a ->]|[b ->]]; exact E.
+Qed.
+Lemma val_tbf t k l : cached s (tbf t) k l -> val (tbf t) k = lsat h T (tbf t) k.
+Proof. intros C. apply (ec_leaf _ k l); [|exact C]. destruct t; [left|right]; eexists; reflexivity. Qed.
+Lemma val_nx_from n w x k l : (forall lx, cached s x (k + n) lx -> val x (k + n) = lsat h T x (k + n)) -> cached s (Nx n w x) k l -> val (Nx n w x) k = lsat h T (Nx n w x) k.
+Proof.
+  intros Gx C. destruct (ec_nx n w x k l C) as [E0|[[R [lx [Cx E]]]|[R E]]]; [exact E0| |]; cbn [lsat]; rewrite R, E; [now apply (Gx lx)|reflexivity].
+Qed.
+Lemma val_finf k l : cached s finf k l -> val finf k = lsat h T finf k.
+Proof.
+  intros C. unfold finf in *. destruct (ec_neg _ k l C) as [E0|[lx [Cx E]]]; [exact E0|]. rewrite E. cbn [lsat]. f_equal.
+  apply (val_nx_from 1 false (Cst true) k lx); [|exact Cx]. intros l1 C1. apply (ec_leaf _ _ l1); [right; eexists; reflexivity|exact C1].
+Qed.
+Lemma val_bin_from op x y k l : (forall lx, cached s x k lx -> val x k = lsat h T x k) -> (forall ly, cached s y k ly -> val y k = lsat h T y k) ->
+  cached s (Bin op x y) k l -> val (Bin op x y) k = lsat h T (Bin op x y) k.
+Proof. intros Gx Gy C. destruct (ec_bin op x y k l C) as [E0|[lx [ly [Cx [Cy E]]]]]; [exact E0|]. rewrite E. cbn [lsat]. now rewrite (Gx lx Cx), (Gy ly Cy). Qed.
+(* from the value of what was built to the value of the modality *)
+Lemma md_from_built m p g k l : (forall lr, cached s (built m p g) k lr -> val (built m p g) k = lsat h T (built m p g) k) ->
+  cached s (Md m p g) k l -> val (Md m p g) k = lsat h T (Md m p g) k.
+Proof.
+  intros Gb C. destruct (ec_md m p g k l C) as [Hk [E0|[lr [Cr E]]]]; [exact E0|]. rewrite E, (Gb lr Cr).
+  destruct (built_valid h T p g k Hk) as [V1 V2]. destruct m; [exact V1|exact V2].
+Qed.
+Lemma cached_le f k l : cached s f k l -> k <= h.
+Proof. intros C. now destruct (EC _ k l C). Qed.
+Lemma path_val : forall p, wfp p = true -> forall m g k0,
+  (GG g k0 -> GG (Md m p g) k0) /\ (consuming p = true -> GG g (S k0) -> GG (Md m p g) k0).
+Proof.
+  induction p as [|t|p1 IH1 p2 IH2|p1 IH1 p2 IH2|q IHq]; intros W m g k0.
+  - (* skip: one step, then the continuation *)
+    assert (GG g (S k0) -> GG (Md m (Skip A) g) k0) as X.
+    { intros G k l Hk C. apply (md_from_built m _ g k l); [|exact C]. rewrite built_shape. intros lr Cr.
+      apply (val_nx_from 1 (negb m) g k lr); [|exact Cr]. intros lx Cx. apply (G (k + 1) lx); [lia|exact Cx]. }
+    split; [intros G; apply X; apply (GG_mono g k0); [lia|exact G]|intros _; exact X].
+  - (* test *)
+    split; [|intros Cn; discriminate Cn]. intros G k l Hk C. apply (md_from_built m _ g k l); [|exact C]. rewrite built_shape. intros lr Cr.
+    apply (val_bin_from _ _ _ k lr); [intros lx; apply val_tbf|intros ly Cy; now apply (G k ly)|exact Cr].
+  - (* choice *)
+    cbn [LDLext.wfp] in W. apply andb_true_iff in W as [W1 W2]. destruct (IH1 W1 m g k0) as [A1 B1]. destruct (IH2 W2 m g k0) as [A2 B2].
+    assert (GG (Md m p1 g) k0 -> GG (Md m p2 g) k0 -> GG (Md m (Choice A p1 p2) g) k0) as X.
+    { intros G1 G2 k l Hk C. apply (md_from_built m _ g k l); [|exact C]. rewrite built_shape. intros lr Cr.
+      apply (val_bin_from _ _ _ k lr); [intros lx Cx; now apply (G2 k lx)|intros ly Cy; now apply (G1 k ly)|exact Cr]. }
+    split; [intros G; apply X; auto|]. cbn [LDLext.consuming]. intros Cn G. apply andb_true_iff in Cn as [C1 C2]. apply X; auto.
+  - (* sequence *)
+    cbn [LDLext.wfp] in W. apply andb_true_iff in W as [W1 W2].
+    assert (GG (Md m p1 (Md m p2 g)) k0 -> GG (Md m (Seq A p1 p2) g) k0) as X.
+    { intros G1 k l Hk C. apply (md_from_built m _ g k l); [|exact C]. rewrite built_shape. intros lr Cr. now apply (G1 k lr). }
+    split.
+    + intros G. apply X. apply (proj1 (IH1 W1 m (Md m p2 g) k0)). now apply (proj1 (IH2 W2 m g k0)).
+    + cbn [LDLext.consuming]. intros Cn G. apply X. apply orb_true_iff in Cn as [C1|C2].
+      * apply (proj2 (IH1 W1 m (Md m p2 g) k0) C1). now apply (proj1 (IH2 W2 m g (S k0))).
+      * apply (proj1 (IH1 W1 m (Md m p2 g) k0)). now apply (proj2 (IH2 W2 m g k0) C2).
+  - (* iteration: induction on the distance to the end of the trace; the body consumes a step *)
+    cbn [LDLext.wfp] in W. apply andb_true_iff in W as [Cq Wq]. split; [|intros Cn; discriminate Cn]. intros G.
+    assert (forall n k l, h - k = n -> k0 <= k -> cached s (Md m (Star A q) g) k l -> val (Md m (Star A q) g) k = lsat h T (Md m (Star A q) g) k) as X.
+    { induction n as [n IHn] using lt_wf_ind. intros k l Hn Hk C. apply (md_from_built m _ g k l); [|exact C]. rewrite built_shape. intros lr Cr.
+      apply (val_bin_from _ _ _ k lr); [| |exact Cr].
+      - intros lx Cx. apply (val_bin_from _ _ _ k lx); [intros l1; apply val_finf|intros l2 C2; now apply (G k l2)|exact Cx].
+      - intros ly Cy. apply (val_bin_from _ _ _ k ly); [intros l1 C1; now apply (G k l1)| |exact Cy].
+        intros l2 C2. apply (proj2 (IHq Wq m (Md m (Star A q) g) k) Cq) with (l := l2); [|lia|exact C2].
+        intros k' l' Hk' C'. pose proof (cached_le _ _ _ C') as Hh. apply (IHn (h - k')) with (l := l'); [lia|reflexivity|lia|exact C']. }
+    intros k l Hk C. now apply (X (h - k) k l).
+Qed.
+Theorem value_gen : forall f, wfb f = true -> forall k l, cached s f k l -> val f k = lsat h T f k.
+Proof.
+  induction f as [a|b|x IH|op x IHx y IHy|n w x IH|x IH|n w x IH|u l IHl r IHr|u r IHr|u l IHl r IHr|u r IHr|p g IHg|p g IHg]; intros Wf k l0 C;
+    cbn [wfb] in Wf; try (apply andb_true_iff in Wf as [Wf1 Wf2]); try specialize (IH Wf); try specialize (IHx Wf1); try specialize (IHy Wf2);
+    try specialize (IHl Wf1); try specialize (IHr Wf2); try specialize (IHr Wf); try specialize (IHg Wf2);
+    [| | | | | | | | | | |exact (proj1 (path_val p Wf1 true g 0) (fun k' l' _ C' => IHg k' l' C') k l0 (Nat.le_0_l k) C)|exact (proj1 (path_val p Wf1 false g 0) (fun k' l' _ C' => IHg k' l' C') k l0 (Nat.le_0_l k) C)];
     destruct (EC _ k l0 C) as [Hk [E0|[[Ho [Dc E]]|[n' [w' [x' [Ef [R E]]]]]]]]; try exact E0; try discriminate; try (cbn [deps] in Dc, E); cbn [lsat].
   - exact E.
   - exact E.
@@ -486,6 +698,7 @@ Variable T : trace.
 Variable v : nat -> bool.
 Hypothesis Oc : ok_cls T v s.
 Hypothesis Oe : ok_ext v s.
+Hypothesis W : Wf s.
 Lemma val_cached f k l : cached s f k l -> val s T v f k = ev T v l.
 Proof. intros [d E]. unfold val. now rewrite E. Qed.
 Lemma vals_of_deps ds ls : all_cached s ds ls -> map (ev T v) ls = map (dval s T v) ds.
@@ -505,11 +718,12 @@ Proof.
 Qed.
 Theorem value_at_cached : forall f k l, cached s f k l -> val s T v f k = lsat h T f k.
 Proof.
-  apply (value_gen h s T v). intros f k l C. destruct (entry_cases f k l C) as [Hk [P|Q]]; split; auto.
+  intros f k l C. apply (value_gen h s T v) with (l := l); [|destruct C as [d L]; exact (proj1 W f k l d L)|exact C].
+  intros f' k' l' C'. destruct (entry_cases f' k' l' C') as [Hk [P|Q]]; split; auto.
 Qed.
 End Value.
-Theorem value_full h s : Inv h [] s -> forall T v, ok_cls T v s -> ok_ext v s -> forall f k l, cached s f k l -> ev T v l = lsat h T f k.
-Proof. intros I T v Oc Oe f k l C. rewrite <- (val_cached s T v f k l C). now apply (value_at_cached h s I T v Oc Oe f k l). Qed.
+Theorem value_full h s : Inv h [] s -> Wf s -> forall T v, ok_cls T v s -> ok_ext v s -> forall f k l, cached s f k l -> ev T v l = lsat h T f k.
+Proof. intros I W T v Oc Oe f k l C. rewrite <- (val_cached s T v f k l C). now apply (value_at_cached h s I T v Oc Oe W f k l). Qed.
 
 (* ---------------- horizon step: what was pending becomes the todo list ---------------- *)
 Lemma Inv_init h : Inv h [] init.
@@ -581,13 +795,96 @@ Proof.
 Qed.
 Theorem first_horizon_inv fuel roots s' : (forall p, In p roots -> fst p <= 0) -> run_list fuel 0 roots init = Some s' -> Inv 0 [] s'.
 Proof. intros Br Run. apply (run_list_inv fuel 0 roots [] init s' (Inv_init 0)); [intros p []|exact Br|exact Run]. Qed.
+Lemma fin_some s f k l d cs l' s' : fin s f k l d cs = Some (l', s') -> lookup s f k = None /\ l' = l /\ s' = set_cache (add_cls s (f, k) cs) f k l d.
+Proof. unfold fin. destruct (lookup s f k); [discriminate|]. intros E. inversion E. auto. Qed.
+(* ---------------- the normal form is kept: what translate adds to the cache is the formula itself and what it builds ---------------- *)
+Lemma Wf_init : Wf init.
+Proof. split; [intros f k l d L; unfold lookup, init in L; cbn in L; discriminate|intros p []]. Qed.
+Lemma wfb_tbf t : wfb (tbf t) = true.  Proof. now destruct t. Qed.
+Lemma built_wf p g : wfp p = true -> wfb g = true -> wfb (dia_built p g) = true /\ wfb (box_built p g) = true.
+Proof.
+  intros Wp Wg. destruct p as [|t|p1 p2|p1 p2|q]; cbn [dia_built box_built wfb finf LDLext.wfp] in *; rewrite ?wfb_tbf, ?Wg; cbn [andb]; try (split; reflexivity).
+  - apply andb_true_iff in Wp as [W1 W2]. rewrite W1, W2. split; reflexivity.
+  - apply andb_true_iff in Wp as [W1 W2]. rewrite W1, W2. split; reflexivity.
+  - apply andb_true_iff in Wp as [W1 W2]. rewrite W1, W2. split; reflexivity.
+Qed.
+Lemma deps_wf f k : wfb f = true -> forall d, In d (deps f k) -> wfb (fst d) = true.
+Proof.
+  intros Wf0 d Hd. destruct f as [a|b|x|op x y|n w x|x|n w x|u l r|u r|u l r|u r|p g|p g]; cbn [deps] in Hd; cbn [wfb] in Wf0.
+  - destruct Hd.
+  - destruct Hd.
+  - destruct Hd as [<-|[]]. exact Wf0.
+  - apply andb_true_iff in Wf0 as [W1 W2]. destruct Hd as [<-|[<-|[]]]; assumption.
+  - destruct (n <=? k); [destruct Hd as [<-|[]]; exact Wf0|destruct Hd].
+  - destruct Hd as [<-|[]]. exact Wf0.
+  - destruct Hd as [<-|[]]. exact Wf0.
+  - pose proof Wf0 as W0. apply andb_true_iff in Wf0 as [W1 W2]. destruct Hd as [<-|[<-|[<-|[]]]]; cbn [fst fut_of wfb]; assumption.
+  - destruct Hd as [<-|[<-|[]]]; cbn [fst fut_of wfb]; assumption.
+  - pose proof Wf0 as W0. apply andb_true_iff in Wf0 as [W1 W2]. destruct k as [|k']; [destruct Hd as [<-|[]]; assumption|destruct Hd as [<-|[<-|[<-|[]]]]; cbn [fst wfb]; assumption].
+  - destruct k as [|k']; [destruct Hd as [<-|[]]; assumption|destruct Hd as [<-|[<-|[]]]; cbn [fst wfb]; assumption].
+  - apply andb_true_iff in Wf0 as [W1 W2]. destruct (reduce_eqs p g) as [E _]. rewrite E in Hd. destruct Hd as [<-|[]]. exact (proj1 (built_wf p g W1 W2)).
+  - apply andb_true_iff in Wf0 as [W1 W2]. destruct (reduce_eqs p g) as [_ E]. rewrite E in Hd. destruct Hd as [<-|[]]. exact (proj2 (built_wf p g W1 W2)).
+Qed.
+Lemma Wf_set s f k l d : Wf s -> wfb f = true -> Wf (set_cache s f k l d).
+Proof.
+  intros [W1 W2] Wf0. split; [|exact W2]. intros f' k' l' d' L. destruct (key_dec f f' k k') as [E|N]; [injection E as -> _; exact Wf0|].
+  rewrite lookup_set_other in L by exact N. exact (W1 _ _ _ _ L).
+Qed.
+Lemma Wf_same s s' : Wf s -> cache s' = cache s -> pending s' = pending s -> Wf s'.
+Proof. intros [W1 W2] Ec Ep. split; [intros f k l d L; unfold lookup in L; rewrite Ec in L; exact (W1 f k l d L)|rewrite Ep; exact W2]. Qed.
+Lemma Wf_pending s k f : Wf s -> wfb f = true -> Wf (add_pending s k f).
+Proof. intros [W1 W2] Wf0. split; [exact W1|]. intros p [<-|Hp]; [exact Wf0|now apply W2]. Qed.
+Lemma go_wf (tr : bf -> nat -> st -> option (lit * st)) :
+  (forall g j s l s', Wf s -> wfb g = true -> tr g j s = Some (l, s') -> Wf s') ->
+  forall ds s ls s', Wf s -> (forall d, In d ds -> wfb (fst d) = true) -> go tr ds s = Some (ls, s') -> Wf s'.
+Proof.
+  intros Ht. induction ds as [|[g j] r IH]; intros s ls s' W Wd Go; cbn [go] in Go.
+  - now inversion Go; subst.
+  - destruct (tr g j s) as [[l1 s1]|] eqn:T1; [|discriminate]. destruct (go tr r s1) as [[ls' s2]|] eqn:G2; [|discriminate]. inversion Go; subst.
+    apply (IH s1 ls' s' (Ht g j s l1 s1 W (Wd (g, j) (or_introl eq_refl)) T1) (fun d Hd => Wd d (or_intror Hd)) G2).
+Qed.
+Theorem translate_wf fuel h : forall f k s l s', Wf s -> wfb f = true -> translate fuel h f k s = Some (l, s') -> Wf s'.
+Proof.
+  induction fuel as [|fu IH]; intros f k s l s' W Wf0 Tr; [discriminate|]. cbn [translate] in Tr.
+  destruct (lookup s f k) as [[l0 [|]]|] eqn:L.
+  - inversion Tr; subst. exact W.
+  - destruct f as [a|b|x|op x y|n w x|x|n w x|u l1 r|u r|u l1 r|u r|p g|p g]; try (inversion Tr; subst; exact W).
+    destruct (k + n <=? h).
+    + destruct (translate fu h x (k + n) s) as [[lx s1]|] eqn:Tx; [|discriminate]. inversion Tr; subst l s'. clear Tr.
+      pose proof (IH x (k + n) s lx s1 W Wf0 Tx) as W1. apply Wf_set; [|exact Wf0]. destruct l0 as [b0 [a0 k0|e]]; apply (Wf_same s1); auto.
+    + inversion Tr; subst l s'. now apply Wf_pending.
+  - destruct (outside h f k).
+    + cbn [fresh] in Tr. apply fin_some in Tr as [_ [-> ->]]. apply Wf_set; [|exact Wf0]. apply (Wf_same (add_pending s k f)); [now apply Wf_pending|reflexivity|reflexivity].
+    + destruct (go (translate fu h) (deps f k) s) as [[ls s1]|] eqn:Go; [|discriminate].
+      pose proof (go_wf (translate fu h) (fun g j s0 l1 s1' W0 Wg T0 => IH g j s0 l1 s1' W0 Wg T0) (deps f k) s ls s1 W (deps_wf f k Wf0) Go) as W1.
+      destruct (combine f k ls) as [[l0|cs]|]; [| |discriminate].
+      * apply fin_some in Tr as [_ [-> ->]]. apply Wf_set; [|exact Wf0]. now apply (Wf_same s1).
+      * cbn [fresh] in Tr. apply fin_some in Tr as [_ [-> ->]]. apply Wf_set; [|exact Wf0]. now apply (Wf_same s1).
+Qed.
+Lemma run_list_wf fuel h : forall r s s', Wf s -> (forall p, In p r -> wfb (snd p) = true) -> run_list fuel h r s = Some s' -> Wf s'.
+Proof.
+  induction r as [|[k f] r IH]; intros s s' W Wr Run; cbn [run_list] in Run.
+  - now inversion Run; subst.
+  - destruct (translate fuel h f k s) as [[l s1]|] eqn:Tr; [|discriminate].
+    apply (IH s1 s' (translate_wf fuel h f k s l s1 W (Wr (k, f) (or_introl eq_refl)) Tr) (fun p Hp => Wr p (or_intror Hp)) Run).
+Qed.
+Theorem theory_translate_wf fuel h s roots s' : Wf s -> (forall p, In p roots -> wfb (snd p) = true) -> theory_translate fuel h roots s = Some s' -> Wf s'.
+Proof.
+  intros W Wr Run. unfold theory_translate in Run. apply (run_list_wf fuel h (rev (pending s) ++ roots) (clear_pending s) s'); [| |exact Run].
+  - split; [exact (proj1 W)|intros p []].
+  - intros p Hp. apply in_app_or in Hp as [Hp|Hp]; [apply (proj2 W); now apply in_rev|now apply Wr].
+Qed.
 (* the incremental theorem: after any number of horizons, every cached literal has the LTLf value of its formula at the current horizon,
    in every assignment that violates none of the emitted constraints and gives the pending placeholders their boundary values *)
 Corollary incremental_full fuel h s roots s' T v :
-  Inv h [] s -> (forall p, In p (pending s) -> fst p <= S h) -> (forall p, In p roots -> fst p <= S h) ->
+  Inv h [] s -> Wf s -> (forall p, In p (pending s) -> fst p <= S h) -> (forall p, In p roots -> fst p <= S h /\ wfb (snd p) = true) ->
   theory_translate fuel (S h) roots s = Some s' -> ok_cls T v s' -> ok_ext v s' ->
   forall f k l, cached s' f k l -> ev T v l = lsat (S h) T f k.
-Proof. intros I Bp Br Run Oc Oe. apply (value_full (S h) s'); auto. eapply theory_translate_inv; eauto. Qed.
+Proof.
+  intros I W Bp Br Run Oc Oe. apply (value_full (S h) s'); [| |exact Oc|exact Oe].
+  - apply (theory_translate_inv fuel h s roots s' I Bp); [|exact Run]. intros p Hp. exact (proj1 (Br p Hp)).
+  - apply (theory_translate_wf fuel (S h) s roots s' W); [|exact Run]. intros p Hp. exact (proj2 (Br p Hp)).
+Qed.
 
 (* ================= existence and uniqueness of the auxiliary assignment (ghost invariant over the event log) ================= *)
 Definition own (s : st) (f : bf) (k : nat) (l : lit) : Prop := exists z kd, l = (true, VX z) /\ In (ENew z kd (f, k)) (log s).
@@ -772,8 +1069,6 @@ Proof.
     pose proof (Bd (g, j) (or_introl eq_refl)) as Hj. destruct (Hi g j s l1 s1 I Hj T1) as [I1 _].
     apply (IH s1 ls' s' I1 (Hg g j s l1 s1 I G Hj T1) (fun d Hd => Bd d (or_intror Hd)) G2).
 Qed.
-Lemma fin_some s f k l d cs l' s' : fin s f k l d cs = Some (l', s') -> lookup s f k = None /\ l' = l /\ s' = set_cache (add_cls s (f, k) cs) f k l d.
-Proof. unfold fin. destruct (lookup s f k); [discriminate|]. intros E. inversion E. auto. Qed.
 Theorem translate_gw fuel h todo : forall f k s l s', Inv h todo s -> Gw s -> k <= h -> translate fuel h f k s = Some (l, s') -> Gw s'.
 Proof.
   induction fuel as [|fu IH]; intros f k s l s' I G Hk Tr; [discriminate|]. cbn [translate] in Tr.
@@ -848,7 +1143,10 @@ Proof. intros G I1. unfold ev. cbn. unfold vstar. now rewrite (owner_of_in s z k
 (* the LTLf semantics satisfies the one-step equations *)
 Lemma sem_sound h T f k : k <= h -> outside h f k = false -> lsat h T f k = sem T f k (map (fun d => lsat h T (fst d) (snd d)) (deps f k)).
 Proof.
-  intros Hk Ho. destruct f as [a|b|x|op x y|n w x|x|n w x|u l r|u r|u l r|u r]; cbn [lsat deps sem map fst snd]; try reflexivity.
+  intros Hk Ho. destruct f as [a|b|x|op x y|n w x|x|n w x|u l r|u r|u l r|u r|p g|p g];
+    [| | | | | | | | | | |destruct (reduce_eqs p g) as [E _]; cbn [deps]; rewrite E; cbn [map sem fst snd]; symmetry; exact (reduce_valid h T _ _ k E Hk)
+                          |destruct (reduce_eqs p g) as [_ E]; cbn [deps]; rewrite E; cbn [map sem fst snd]; symmetry; exact (reduce_valid h T _ _ k E Hk)];
+    cbn [lsat deps sem map fst snd]; try reflexivity.
   - destruct (n <=? k); reflexivity.
   - cbn [outside] in Ho. apply negb_false_iff in Ho. now rewrite Ho.
   - rewrite (fut_step_spec u _ _ h k Hk). unfold fut_of. cbn [lsat]. reflexivity.
@@ -866,7 +1164,7 @@ Lemma eqb_refl_true a b : a = b -> Bool.eqb a b = true.  Proof. intros ->. apply
 Lemma combine_holds T v f k ls mk l : combine f k ls = Some (CDefine mk) -> ev T v l = sem T f k (map (ev T v) ls) ->
   forall b, In b (mk l) -> forallb (ev T v) b = false.
 Proof.
-  intros C E. destruct f as [a|b0|x|op x y|n w x|x|n w x|u l1 r|u r|u l1 r|u r]; cbn [combine] in C.
+  intros C E. destruct f as [a|b0|x|op x y|n w x|x|n w x|u l1 r|u r|u l1 r|u r|p g|p g]; cbn [combine] in C.
   - destruct ls; discriminate.
   - destruct ls; discriminate.
   - destruct ls as [|lx [|? ?]]; discriminate.
@@ -881,6 +1179,10 @@ Proof.
     apply holds_inst. rewrite tel_clauses_spec. cbn [lmap]. now apply eqb_refl_true.
   - destruct k as [|k']; [destruct ls as [|lr [|? ?]]; discriminate|]. destruct ls as [|lp [|lr [|? ?]]]; try discriminate. inversion C; subst mk. cbn [sem map] in E.
     apply holds_inst. rewrite tel_clauses_spec. cbn [lmap]. apply eqb_refl_true. rewrite E. apply tel_spec_nolhs.
+  - destruct ls as [|lx [|? ?]]; try discriminate. injection C as <-. cbn [sem map] in E. change (forall b, In b (inst (lmap lx lfalse l lfalse) make_equal_cl_gen) -> forallb (ev T v) b = false).
+    apply holds_inst. rewrite make_equal_spec. cbn [lmap]. now apply eqb_refl_true.
+  - destruct ls as [|lx [|? ?]]; try discriminate. injection C as <-. cbn [sem map] in E. change (forall b, In b (inst (lmap lx lfalse l lfalse) make_equal_cl_gen) -> forallb (ev T v) b = false).
+    apply holds_inst. rewrite make_equal_spec. cbn [lmap]. now apply eqb_refl_true.
 Qed.
 Lemma define_not_next f k ls mk : combine f k ls = Some (CDefine mk) -> forall h, outside h f k = false.
 Proof. intros C h. destruct f; try reflexivity. cbn [combine] in C. destruct ls as [|lx [|? ?]]; discriminate. Qed.
@@ -889,11 +1191,12 @@ Variable h : nat.
 Variable s : st.
 Hypothesis I : Inv h [] s.
 Hypothesis G : Gw s.
+Hypothesis W : Wf s.
 Variable T : trace.
 Notation vs := (vstar h T s).
 Lemma vstar_values : forall f k l, cached s f k l -> ev T vs l = lsat h T f k.
 Proof.
-  intros f k l C. rewrite <- (val_cached s T vs f k l C). apply (value_gen h s T vs) with (l := l); [|exact C]. clear f k l C.
+  intros f k l C. rewrite <- (val_cached s T vs f k l C). apply (value_gen h s T vs) with (l := l); [|destruct C as [d0 L0]; exact (proj1 W f k l d0 L0)|exact C]. clear f k l C.
   intros f k l [d L]. destruct (I _ _ _ _ L) as [Hk EO]. split; [exact Hk|].
   assert (val s T vs f k = ev T vs l) as V0 by (apply val_cached; now exists d).
   destruct (g_shape s G f k l d L) as [[ls [l0 [Hd [Cs [Cm ->]]]]]|[z [kd [-> I1]]]].
@@ -922,8 +1225,8 @@ Qed.
 Theorem unique_full (v : nat -> bool) : ok_cls T v s -> ok_ext v s -> forall z, 0 < z < nxt s -> v z = vs z.
 Proof.
   intros Oc Oe z Hz. destruct (g_all s G z Hz) as [kd [[f k] I1]]. destruct (g_owner s G z kd f k I1) as [d L].
-  pose proof (value_full h s I T v Oc Oe f k (true, VX z) (ex_intro _ d L)) as V. unfold ev in V. cbn in V. rewrite V.
-  pose proof (vstar_own h T s f k z kd G I1) as W. unfold ev in W. cbn in W. now rewrite W.
+  pose proof (value_full h s I W T v Oc Oe f k (true, VX z) (ex_intro _ d L)) as V. unfold ev in V. cbn in V. rewrite V.
+  pose proof (vstar_own h T s f k z kd G I1) as V2. unfold ev in V2. cbn in V2. now rewrite V2.
 Qed.
 End Exist.
 (* The whole story for one more horizon: after Theory.translate at horizon S h both invariants hold again; for every trace T there is an
@@ -931,16 +1234,18 @@ End Exist.
    all allocated atoms, and under it every cached literal has the LTLf value of its formula.  Hence body formulas have a definite truth value
    in every answer set and mentioning one neither creates, destroys nor duplicates answer sets - for the FULL operator set. *)
 Theorem definitional_extension_full fuel h s roots s' :
-  Inv h [] s -> Gw s -> (forall p, In p (pending s) -> fst p <= S h) -> (forall p, In p roots -> fst p <= S h) ->
+  Inv h [] s -> Gw s -> Wf s -> (forall p, In p (pending s) -> fst p <= S h) -> (forall p, In p roots -> fst p <= S h /\ wfb (snd p) = true) ->
   theory_translate fuel (S h) roots s = Some s' ->
-  Inv (S h) [] s' /\ Gw s' /\
+  Inv (S h) [] s' /\ Gw s' /\ Wf s' /\
   forall T : trace,
     (ok_cls T (vstar (S h) T s') s' /\ ok_ext (vstar (S h) T s') s') /\
     forall v : nat -> bool, ok_cls T v s' -> ok_ext v s' ->
       (forall z, 0 < z < nxt s' -> v z = vstar (S h) T s' z) /\
       (forall f k l, cached s' f k l -> ev T v l = lsat (S h) T f k).
 Proof.
-  intros I G Bp Br Run. pose proof (theory_translate_inv fuel h s roots s' I Bp Br Run) as I'. pose proof (theory_translate_gw fuel h s roots s' I G Bp Br Run) as G'.
-  split; [exact I'|]. split; [exact G'|]. intros T. split; [now apply exists_full|]. intros v Oc Oe. split; [now apply unique_full|now apply value_full].
+  intros I G W0 Bp Br Run. assert (forall p, In p roots -> fst p <= S h) as Br1 by (intros p Hp; exact (proj1 (Br p Hp))).
+  pose proof (theory_translate_inv fuel h s roots s' I Bp Br1 Run) as I'. pose proof (theory_translate_gw fuel h s roots s' I G Bp Br1 Run) as G'.
+  pose proof (theory_translate_wf fuel (S h) s roots s' W0 (fun p Hp => proj2 (Br p Hp)) Run) as W'.
+  split; [exact I'|]. split; [exact G'|]. split; [exact W'|]. intros T. split; [now apply exists_full|]. intros v Oc Oe. split; [now apply unique_full|now apply value_full].
 Qed.
 End BTF.
